@@ -276,10 +276,11 @@ void mi_option_set(mi_option_t option, long value) {
   desc->value = value;
   desc->init = INITIALIZED;
   // ensure min/max range; be careful to not recurse.
-  if (desc->option == mi_option_guarded_min && _mi_option_get_fast(mi_option_guarded_max) < value) {
+  // (use `mi_option_get` so the other bound is initialized from its own environment variable first)
+  if (desc->option == mi_option_guarded_min && mi_option_get(mi_option_guarded_max) < value) {
     mi_option_set(mi_option_guarded_max, value);
   }
-  else if (desc->option == mi_option_guarded_max && _mi_option_get_fast(mi_option_guarded_min) > value) {
+  else if (desc->option == mi_option_guarded_max && mi_option_get(mi_option_guarded_min) > value) {
     mi_option_set(mi_option_guarded_min, value);
   }
 }
